@@ -893,6 +893,26 @@ fn run_relabel(plan: &Plan, lib: &dyn Lib, rec: &mut Rec) {
             let as_sig = refimpl::layout::tagged(from, &pop);
             let out = rec.call(lib, g, Op::Verify, &[&as_sig, &a.pk, &a.pk]);
             rec.expect("C05", "pop-is-not-a-signature", !out.is_ok(), || format!("pop-as-sig {} g={} | a proof of possession verifies as a {} signature over the key bytes", scheme_name(from), g.name(), scheme_name(from)));
+            // ... and presented as multi-signature / as an aggregate over the ONE-entry list [(pk, pk bytes)] (a hand-made or
+            // decoded value: the constructors refuse fewer than two signatures, the verifiers take any list)
+            let out = rec.call(lib, g, Op::MultiVerify, &[&as_sig, &a.pk, &a.pk]);
+            rec.expect("C05", "pop-is-not-a-signature", !out.is_ok(), || format!("pop-as-multi-signature {} g={} | verifies over the key bytes", scheme_name(from), g.name()));
+            let out = rec.call(lib, g, Op::AggVerify, &[&as_sig, &a.pk, &a.pk]);
+            rec.expect("C05", "pop-is-not-a-signature", !out.is_ok(), || format!("pop-as-one-entry-aggregate {} g={} | a proof of possession verifies as a {} aggregate over [(pk, pk bytes)]", scheme_name(from), g.name(), scheme_name(from)));
+        }
+        // one-entry aggregates: the signature under its own label is what the draft's AggregateVerify accepts for n = 1 (when
+        // the library takes one-entry lists at all), under the other labels it is refused
+        for to in 0u8..3 {
+            let mut one = sig.clone();
+            one[0] = to;
+            let out = rec.call(lib, g, Op::AggVerify, &[&one, &a.pk, &msg]);
+            if to == from {
+                if !out.is_ok() {
+                    rec.probe("one-entry-aggregate-refused-under-its-own-label");
+                }
+            } else {
+                rec.expect("C05", "relabelled-signature-rejected", !out.is_ok(), || format!("one-entry aggregate {}->{} g={} | verifies", scheme_name(from), scheme_name(to), g.name()));
+            }
         }
     }
     rec.sample(|| format!("all 6 ordered scheme pairs, g={}, msg_len={}, key_class={}", g.name(), msg.len(), plan.get("key_class")));
@@ -993,7 +1013,22 @@ fn run_interop(plan: &Plan, lib: &dyn Lib, rec: &mut Rec) {
     let mut c = Courier::new(plan.seed, 2);
     // KeyGen from seeds of assorted lengths
     let seed_len = *x.pick(&[0usize, 1, 16, 28, 31, 32, 33, 48, 55, 56, 63, 64, 65, 100, 119, 120, 127, 128, 255, 256, 1024, 65536]);
-    let ikm = x.bytes(seed_len);
+    let mut ikm = x.bytes(seed_len);
+    // one run in five: a seed that is TEXT (what operators paste: the hex rendering of a digest, lower / upper case, with
+    // a 0x prefix, base64, decimal digits, a pass phrase) — KeyGen takes the bytes as given
+    if plan.seed % 5 == 0 {
+        let raw = x.bytes(32 + (plan.seed as usize / 5 % 3) * 16);
+        let h = kernel::plan::hex(&raw);
+        ikm = match plan.seed / 5 % 6 {
+            0 => h.into_bytes(),
+            1 => h.to_uppercase().into_bytes(),
+            2 => format!("0x{}", h).into_bytes(),
+            3 => raw.iter().map(|b| b"ABCDEFGHIJKLMNOPQRSTUVWXYZabcdefghijklmnopqrstuvwxyz0123456789+/"[(*b & 63) as usize]).chain(*b"==").collect(),
+            4 => raw.iter().flat_map(|b| format!("{:03}", b).into_bytes()).collect(),
+            _ => b"correct horse battery staple correct horse battery staple correct horse".to_vec(),
+        };
+    }
+    let seed_len = ikm.len();
     let sk_ref = refimpl::keygen(&ikm);
     for op in [Op::KeyFromHash, Op::KeyFromHashViaBls] {
         let out = rec.call(lib, g, op, &[&ikm]);
